@@ -73,6 +73,13 @@ def gen_cases(tier, seed):
     yield {"rankings": [[[0], [1]], [[1], [0]]], "mult": [2001, 1999], "schemes": si, "namekind": "canon"}
     yield {"rankings": [[[0], [1], [2]], [[1], [0], [2]], [[2], [0], [1]]], "mult": [1001, 999, 1], "schemes": si,
            "namekind": "str"}
+    # equal means reached with different numbers of rankings (s/c == q*s/(q*c), induced measure): X scores 1 in s of its c
+    # rankings, Y scores 1 in q*s of its q*c rankings, Z always first: expected [{Z},{X,Y}] (0 = Z, 1 = X, 2 = Y)
+    for s_, c_, q_ in ((3, 5, 3), (1, 3, 5), (2, 7, 3), (1, 5, 7), (3, 7, 5), (2, 3, 7), (5, 9, 3), (4, 11, 3)):
+        yield {"rankings": [[[1]], [[0], [1]], [[2]], [[0], [2]]],
+               "mult": [c_ - s_, s_, q_ * (c_ - s_), q_ * s_], "schemes": si, "namekind": "canon"}
+    yield {"rankings": [[[1], [2]], [[2], [1]], [[0], [1]], [[1], [0]]], "mult": [3, 2, 7, 3], "schemes": si,
+           "namekind": "str"}
     for i in range(12 if quick else 120):
         n = rng.randint(3, 5)
         base = D.random_dataset(rng, n, 4, complete=(i % 3 == 0), n_min=3)
@@ -138,11 +145,17 @@ def check_case(case):
         detail.update({"scheme": scheme, "use_bucket_id": ubi, "rankings_as_given": rankings})
         fails.append({"clause": clause, "site": site, "detail": detail})
 
+    # the objects of both variants exist side by side (built in alternating order) before any of them is used: the
+    # variant is a property of the object, not of the class or of the last object built
+    order = (False, True) if len(rankings) % 2 else (True, False)
+    algs_by_variant = {}
+    for v_ in order:
+        algs_by_variant[v_] = BordaCount(use_bucket_id=v_)
+
     def run(rks, scheme, ubi, one=False):
         """-> ('ok', [canon rankings]) | ('refused', None) | ('crash', text)"""
         try:
-            cons = BordaCount(use_bucket_id=ubi).compute_consensus_rankings(A.mk_dataset(rks), A.mk_scheme(scheme),
-                                                                            one)
+            cons = algs_by_variant[ubi].compute_consensus_rankings(A.mk_dataset(rks), A.mk_scheme(scheme), one)
         except ScoringSchemeNotHandledException:
             return "refused", None
         except Exception as e:
